@@ -586,6 +586,59 @@ def required_variables(sym):
     return res
 
 
+def dedup_site(sym, cd):
+    """SymbolicExpression._is_duplicate_output_ and SeenSet.add / SeenSet.check: the duplicate check of Dedup.v (`dup_check`) is a
+    transcription of exactly these three bodies; they are PINNED: the statements must be the ones below (annotations, comments and
+    docstrings aside), anything else is refused."""
+    def stmts(src):
+        return [ast.dump(x) for x in body_wo_doc(ast.parse(src).body[0])]
+    ref_dup = """
+def f(self, output):
+    required_vars = self._parent_._required_variables_from_child_(self, when_true=not self._is_false_)
+    if not required_vars:
+        return False
+    required_output = {k: v for k, v in output.items() if k in required_vars}
+    if not required_output:
+        return False
+    parent_id = self._parent_._id_
+    seen_by_truth = self._seen_parent_values_by_parent_.setdefault(parent_id, {True: SeenSet(), False: SeenSet()})
+    seen_set = seen_by_truth[not self._is_false_]
+    if seen_set.check(required_output):
+        return True
+    else:
+        seen_set.add(required_output)
+        return False
+"""
+    ref_add = """
+def f(self, assignment):
+    if not self.all_seen:
+        self.seen.append(assignment)
+        if not assignment:
+            self.all_seen = True
+"""
+    ref_check = """
+def f(self, assignment):
+    if self.all_seen:
+        return True
+    if not assignment:
+        self.all_seen = True
+        self.seen.append(assignment)
+        return False
+    for constraint in self.seen:
+        if all(assignment[k] == v if k in assignment else False for k, v in constraint.items()):
+            return True
+    return False
+"""
+    fn = method(find(sym, ast.ClassDef, 'SymbolicExpression'), '_is_duplicate_output_')
+    need([ast.dump(x) for x in body_wo_doc(fn)] == stmts(ref_dup),
+         'SymbolicExpression._is_duplicate_output_: not the statements the duplicate check of Dedup.v transcribes')
+    ss = find(cd, ast.ClassDef, 'SeenSet')
+    need([ast.dump(x) for x in body_wo_doc(method(ss, 'add'))] == stmts(ref_add), 'SeenSet.add: not the statements Dedup.v transcribes')
+    need([ast.dump(x) for x in body_wo_doc(method(ss, 'check'))] == stmts(ref_check), 'SeenSet.check: not the statements Dedup.v transcribes')
+    # HashedValue.__eq__: identity of the wrapped object (what `assignment[k] == v` compares)
+    return True
+
+
 def rule_builders(rule):
     """rule.refinement / rule.alternative_or_next: how the new operator is wrapped around the current node and linked into the
     operator above it.  Recognised shapes only; anything else is refused."""
@@ -709,6 +762,7 @@ def emit(d):
     rb = rule_builders(parse(os.path.join(d, 'rule.py')))
     lz = lazy_iteration(parse(os.path.join(d, 'hashed_data.py')))
     rq = required_variables(sym)
+    ds = dedup_site(sym, parse(os.path.join(d, 'cache_data.py')))
     o = []
     o.append("(* Generated.v — REGENERATED ON EVERY RUN by translator/eql2coq.py from /repo's current source. Do not edit. *)")
     o.append("From EQL Require Import Base Values.\n")
@@ -802,6 +856,9 @@ def emit(d):
                 for wt in (True, False, None):
                     o.append(f"  | {'true' if il else 'false'}, {ob(wt)} => {show(rq[cname][(il, wt)][idx])}")
             o.append("  end.")
+    o.append("")
+    o.append("(* SymbolicExpression._is_duplicate_output_, SeenSet.add, SeenSet.check have the statements Dedup.dup_check transcribes (pinned) *)")
+    o.append(f"Definition dedup_site_as_modelled : bool := {'true' if ds else 'false'}.")
     return "\n".join(o) + "\n"
 
 
